@@ -1,6 +1,7 @@
 package universe
 
 import (
+	"context"
 	stdjson "encoding/json"
 	"fmt"
 	"reflect"
@@ -98,6 +99,12 @@ func (u UJ) MarshalJSON() ([]byte, error) {
 	}
 	return []byte(u.B), nil
 }
+
+// UC implements only the context-aware UnmarshalJSON / MarshalJSON of go-json (encoding/json sees a plain struct,
+// so it is used where the oracle is not encoding/json: C06, C11).
+type UC struct{ B string }
+
+func (u *UC) UnmarshalJSON(_ context.Context, b []byte) error { u.B = string(b); return nil }
 
 type UT struct{ S string }
 
@@ -236,6 +243,13 @@ func Types(level int, decode bool) []reflect.Type {
 	for _, k := range MapKeys()[1:] {
 		add(reflect.MapOf(k, TInt))
 		add(reflect.MapOf(k, TIface))
+	}
+	if decode {
+		// key types that cannot hold an object key in encoding/json (a pointer key once received the key's
+		// number as its address)
+		for _, k := range []reflect.Type{reflect.PtrTo(TInt), reflect.PtrTo(TString), TBool, TFloat64, reflect.ArrayOf(1, TInt), TIface, reflect.PtrTo(reflect.TypeOf(UT{}))} {
+			add(reflect.MapOf(k, TInt))
+		}
 	}
 	// member names made of every class of character a tag may or may not carry (encoding/json
 	// takes the punctuation of isValidTag, letters and digits; anything else falls back to the
